@@ -6,7 +6,7 @@ import warnings
 import pysmt.environment
 import pysmt.operators as op
 from pysmt.solvers.eager import EagerModel
-from pysmt.typing import BOOL, BVType
+from pysmt.typing import BOOL, INT, STRING, BVType, ArrayType
 
 from . import gen_all, lib, refeval, tocoq
 from . import c01 as S        # literal emission, order oracle and case-file plumbing of the simplifier model
@@ -103,6 +103,105 @@ def interp_of(f, assignment, defaults=True):
     return refeval.Interp(vals)
 
 
+# ---------------------------------------------------------------------------------------------
+# directed families (second seeding round): finite-index array values with different defaults, and the
+# string hazard pool of harness/c01.py (STR_HAZARD)
+# ---------------------------------------------------------------------------------------------
+FIN_IDX = [BOOL, BVType(1), BVType(2)]
+
+
+def fin_consts(m, t):
+    if t.is_bool_type():
+        return [m.FALSE(), m.TRUE()]
+    return [m.BV(v, t.width) for v in range(1 << t.width)]
+
+
+def fin_vals(m, ty):
+    """three extensionally different values of sort ty (Int, or arrays over finite index sorts)"""
+    if not ty.is_array_type():
+        return [m.Int(0), m.Int(1), m.Int(2)]
+    e = fin_vals(m, ty.elem_type)
+    dom = fin_consts(m, ty.index_type)
+    return [m.Array(ty.index_type, e[0]), m.Array(ty.index_type, e[1]), m.Array(ty.index_type, e[0], {dom[0]: e[2]})]
+
+
+def alt_spelling(m, ty, k):
+    """fin_vals(ty)[k] for k in (0, 1), spelled with the OTHER default and every index assigned"""
+    e = fin_vals(m, ty.elem_type)
+    dom = fin_consts(m, ty.index_type)
+    return m.Array(ty.index_type, e[1 - k], dict((i, e[k]) for i in dom))
+
+
+def fin_array_pairs(m, ty):
+    """[(tag, A, B, extensionally_equal)]: A and B have DIFFERENT defaults d0 / d1; their explicit entries are
+    disjoint / overlapping / jointly covering / covering all but one index / not covering, and agree pointwise
+    (then A = B iff the entries jointly cover the index sort) or disagree at one index."""
+    it = ty.index_type
+    d0, d1, c = fin_vals(m, ty.elem_type)
+    dom = fin_consts(m, it)
+    n = len(dom)
+    pats = [("disjoint-covering", dom[:n // 2], dom[n // 2:]), ("overlapping-covering", dom[:-1], dom[1:]),
+            ("full-vs-none", dom, []), ("full-vs-full", dom, dom), ("covering-but-one", dom[:n // 2], dom[n // 2:-1]),
+            ("none-vs-none", [], []), ("one-vs-none", dom[:1], [])]
+    if n > 2:
+        pats += [("disjoint-not-covering", dom[:1], dom[1:2]), ("overlapping-not-covering", dom[:2], dom[1:3]),
+                 ("overlapping-covering-2", dom[:3], dom[2:]), ("covering-but-one-2", dom[:2], dom[1:3])]
+    deep = ty.elem_type.is_array_type()
+    out, seen = [], set()
+    for tag, ka, kb in pats:
+        covering = set(ka) | set(kb) == set(dom)
+        ea = dict((k, (c if k in kb else d1)) for k in ka)
+        eb = dict((k, (c if k in ka else d0)) for k in kb)
+        variants = [("agree", ea, eb, covering)]
+        only_a = [k for k in ka if k not in kb]
+        both = [k for k in ka if k in kb]
+        if only_a:
+            bad = dict(ea)
+            bad[only_a[-1]] = c
+            variants.append(("disagree", bad, eb, False))
+        elif both:
+            bad = dict(ea)
+            bad[both[0]] = d1
+            variants.append(("disagree", bad, eb, False))
+        if deep and eb:
+            # the entries of B that must equal A's default, spelled differently one level down
+            alt = dict((k, (alt_spelling(m, ty.elem_type, 0) if v is d0 else v)) for k, v in eb.items())
+            variants.append(("agree-alt-spelling", ea, alt, covering))
+        for vt, xa, xb, eq in variants:
+            A, B = m.Array(it, d0, xa), m.Array(it, d1, xb)
+            if (A, B) not in seen:
+                seen.add((A, B))
+                out.append((tag + "/" + vt, A, B, eq))
+    return out
+
+
+def residual_cause(env, f, assignment, completion):
+    """Why get_value did not reach a constant: names the one documented family (an equality between two structurally
+    different constant array values that walk_equals leaves undecided), else None."""
+    try:
+        model = EagerModel(assignment=assignment, environment=env)
+        if completion:
+            model._complete_model(f.get_free_variables())
+            r = env.substituter.substitute(f, model.completed_assignment).simplify()
+        else:
+            r = env.substituter.substitute(f, model.assignment).simplify()
+    except Exception:   # noqa
+        return None
+    if r.is_constant() or r.get_free_variables():
+        return None
+    stack, seen = [r], set()
+    while stack:
+        x = stack.pop()
+        if x in seen:
+            continue
+        seen.add(x)
+        if x.is_equals() and x.arg(0).is_array_value() and x.arg(1).is_array_value() \
+           and x.arg(0).is_constant() and x.arg(1).is_constant() and x.arg(0) is not x.arg(1):
+            return "unfolded-const-array-equality"
+        stack += list(x.args())
+    return None
+
+
 def run(tier):
     chk = lib.Check("C02", tier)
     rnd = random.Random(chk.seed)
@@ -140,20 +239,24 @@ def run(tier):
             if I is not None:
                 ev, exact = refeval.evaluate_ex(f, I)
                 stats["oracle_evaluations"] += 1
+                cause = residual_cause(env, f, assignment, completion) if (v is None or (ask_sat and sat != "skip" and sat != bool(ev))) else None
+                if cause:
+                    stats["known_family_" + cause] = stats.get("known_family_" + cause, 0) + 1
                 if v is None:
                     chk.violation({"kind": "input", "what": "get_value raised although the formula is ground-evaluable under the assignment",
-                                   "formula": f.serialize(), "assignment": {str(k): str(x) for k, x in assignment.items()},
-                                   "completion": completion, "expected_value": repr(ev)}, key="gv-raises:" + key)
+                                   "formula": S.ser(f), "assignment": {str(k): S.ser(x) for k, x in assignment.items()},
+                                   "completion": completion, "expected_value": repr(ev)},
+                                  key=("gv-raises:" + cause) if cause else ("gv-raises:" + key))
                 else:
                     got = refeval.evaluate_ex(v, refeval.Interp({}))[0]
                     if got != ev:
-                        chk.violation({"kind": "input", "what": "get_value returned %s but the formula denotes %r" % (v.serialize(), ev),
-                                       "formula": f.serialize(), "assignment": {str(k): str(x) for k, x in assignment.items()},
+                        chk.violation({"kind": "input", "what": "get_value returned %s but the formula denotes %r" % (S.ser(v), ev),
+                                       "formula": S.ser(f), "assignment": {str(k): S.ser(x) for k, x in assignment.items()},
                                        "completion": completion}, key="gv-wrong:" + key)
-                    if ask_sat and f.get_type().is_bool_type() and sat != "skip" and sat != bool(ev):
-                        chk.violation({"kind": "input", "what": "satisfies() = %s but the formula's value is %r" % (sat, ev),
-                                       "formula": f.serialize(), "assignment": {str(k): str(x) for k, x in assignment.items()}},
-                                      key="sat-wrong:" + key)
+                if ask_sat and f.get_type().is_bool_type() and sat != "skip" and sat != bool(ev):
+                    chk.violation({"kind": "input", "what": "satisfies() = %s but the formula's value is %r" % (sat, ev),
+                                   "formula": S.ser(f), "assignment": {str(k): S.ser(x) for k, x in assignment.items()}},
+                                  key=("sat-wrong:" + cause) if cause else ("sat-wrong:" + key))
             elif v is not None and not completion:
                 # partial assignment: a returned value must hold for every completion (sampled)
                 stats["partial_calls"] += 1
@@ -187,7 +290,7 @@ def run(tier):
             return "(%s, %s, %s, %s, %s, %s)" % (asg, names[f], "true" if completion else "false", tbl,
                                                  "None" if v is None else "(Some %s)" % names[v], es)
         rows.append(S.emit(roots, body))
-        meta.append((f.serialize()[:300], {str(k): str(x) for k, x in assignment.items()}, completion, None if v is None else v.serialize()))
+        meta.append((S.ser(f, 300), {str(k): S.ser(x, 300) for k, x in assignment.items()}, completion, None if v is None else S.ser(v, 300)))
         chk.count(("c02", tocoq.skey(f), tuple(sorted((str(k), str(x)) for k, x in assignment.items())), completion), nontrivial=len(f.args()) > 0)
 
     # ---------------- random formulas x total / partial / empty assignments -------------------
@@ -231,6 +334,79 @@ def run(tier):
                     for b in (range(0, 1 << w) if y in f.get_free_variables() else [0]):
                         one(env, f, {x: m.BV(a, w), y: m.BV(b, w)} if y in f.get_free_variables() else {x: m.BV(a, w)}, True, ask_sat=False)
                         stats["bv_exhaustive"] += 1
+    # ---------------- finite-index array values with different defaults ------------------------
+    fam = {"chains": 0, "pairs": 0, "pairs_equal": 0, "pairs_different": 0, "cases": 0, "by_depth": {}}
+    n0 = len(rows)
+    with S.EnvCtx() as env:
+        m = env.formula_manager
+        chains = [c for d in (1, 2, 3) for c in __import__("itertools").product(FIN_IDX, repeat=d)]
+        for ch in chains:
+            ty = INT
+            for i in reversed(ch):
+                ty = ArrayType(i, ty)
+            nm = "_".join(("b" if t.is_bool_type() else "v%d" % t.width) for t in ch)
+            a, b = m.Symbol("fa_" + nm, ty), m.Symbol("fb_" + nm, ty)
+            x = m.Symbol("fx", INT)
+            dom = fin_consts(m, ty.index_type)
+            pairs = fin_array_pairs(m, ty)
+            if len(ch) == 3 and tier == "quick":
+                keep = [p for p in pairs if p[0].startswith(("disjoint-covering", "overlapping-covering/"))]
+                pairs = keep + rnd.sample([p for p in pairs if p not in keep], 2)
+            elif len(ch) == 2 and tier == "quick":
+                keep = [p for p in pairs if "covering" in p[0] and "not-covering" not in p[0]]
+                pairs = keep + rnd.sample([p for p in pairs if p not in keep], 3)
+            fam["chains"] += 1
+            before = len(rows)
+            for tag, A, B, eq in pairs:
+                fam["pairs"] += 1
+                fam["pairs_equal" if eq else "pairs_different"] += 1
+                k = rnd.choice(dom)
+                forms = [(m.Equals(a, b), {a: A, b: B}, True, True),                       # symbols, total
+                         (m.Equals(A, B), {}, True, True),                                   # literals
+                         (m.Not(m.Equals(a, B)), {a: A}, True, True),                         # mixed, negated
+                         (m.Ite(m.Equals(a, b), m.Int(1), m.Plus(x, m.Int(5))), {a: A, b: B, x: m.Int(2)}, True, False),   # guard
+                         (m.Equals(m.Select(a, k), m.Select(b, k)), {a: A, b: B}, True, True)]
+                if len(ch) == 1 or tier != "quick":
+                    forms += [(m.And([m.Equals(m.Select(a, i), m.Select(B, i)) for i in dom]), {a: A}, True, True),
+                              (m.Equals(a, b), {a: A}, False, False),                        # partial, no completion
+                              (m.Ite(m.Equals(A, b), x, m.Int(0)), {b: B}, True, False),      # partial (x completed with 0)
+                              (m.Equals(m.Store(a, k, m.Select(b, k)), b), {a: A, b: B}, True, True)]
+                elif len(ch) == 3:
+                    forms = [forms[j] for j in sorted(rnd.sample(range(5), 3))]
+                for f, asg, compl, ask in forms:
+                    one(env, f, asg, compl, ask_sat=ask)
+            fam["by_depth"][len(ch)] = fam["by_depth"].get(len(ch), 0) + len(rows) - before
+    fam["cases"] = len(rows) - n0
+    chk.cov["family_finite_index_arrays"] = fam
+    # ---------------- the string hazard pool through every string operator ----------------------
+    n0 = len(rows)
+    with S.EnvCtx() as env:
+        m = env.formula_manager
+        sx = m.Symbol("hx", STRING)
+        one_, x_ = m.String("1"), m.String("x")
+
+        def str_forms(t, v):
+            n = len(v)
+            fst, lst = m.String(v[:1]), m.String(v[-1:])
+            return [m.StrLength(t), m.StrToInt(t), m.IntToStr(m.StrToInt(t)), m.StrConcat(t, one_), m.StrToInt(m.StrConcat(t, one_)),
+                    m.StrToInt(m.StrConcat(one_, t)), m.StrCharAt(t, m.Int(0)), m.StrCharAt(t, m.Int(n - 1)), m.StrCharAt(t, m.Int(n)),
+                    m.StrSubstr(t, m.Int(1), m.Int(n)), m.StrSubstr(t, m.Int(0), m.Int(n - 1)), m.StrIndexOf(t, lst, m.Int(0)),
+                    m.StrIndexOf(t, one_, m.Int(1)), m.StrReplace(t, fst, x_), m.StrPrefixOf(fst, t), m.StrSuffixOf(lst, t),
+                    m.StrContains(t, lst), m.StrContains(t, one_), m.Equals(m.StrToInt(t), m.Int(-1)), m.LE(m.Int(0), m.StrToInt(t)),
+                    m.Equals(m.StrLength(m.StrConcat(t, t)), m.Int(2 * n))]
+        lit_keep = (1, 2, 4, 18, 19)        # literal form: the to_int family (the symbol form runs everything)
+        for v in S.STR_HAZARD:
+            c = m.String(v)
+            fs = str_forms(sx, v)
+            if tier == "quick":
+                idx = sorted(set([0, 1, 2, 4, 5, 18, 19] + rnd.sample(range(len(fs)), 6)))
+                fs = [fs[j] for j in idx]
+            for f in fs:
+                one(env, f, {sx: c}, True, ask_sat=f.get_type().is_bool_type())
+            lf = str_forms(c, v)
+            for j in (lit_keep if tier == "quick" else range(len(lf))):
+                one(env, lf[j], {}, True, ask_sat=lf[j].get_type().is_bool_type())
+    chk.cov["family_string_hazard"] = {"pool": len(S.STR_HAZARD), "cases": len(rows) - n0}
     chk.sample({"formula": meta[0][0], "assignment": meta[0][1], "completion": meta[0][2], "value": meta[0][3]})
     chk.sample({"formula": meta[-1][0], "assignment": meta[-1][1], "completion": meta[-1][2], "value": meta[-1][3]})
 
